@@ -16,7 +16,7 @@ import zlib
 
 from hypothesis import strategies as st
 
-from bumble import att, core, l2cap
+from bumble import att, core, hci, l2cap
 from bumble.gatt import Characteristic, CharacteristicValue, Descriptor, Service
 from vlib import specgen, vloop, world
 from vlib.runner import HarnessError
@@ -34,7 +34,17 @@ RULE = (
     'sweep: every opcode 0x00..0xFF x generated parameterisations x 3 fixed databases x MTUs; fill: dense databases '
     '(3..12 services of one UUID, 3..12 same-typed equal-valued characteristics with descriptors) x ATT_MTU 23..48 x '
     'one full-range multi-entry request of each kind (responses assembled from several attributes, at every residue of '
-    'ATT_MTU modulo the entry size). '
+    'ATT_MTU modulo the entry size); '
+    'histories: topologies fixed (raw peer) and mixed (the fixed bearer AND 1..2 enhanced bearers of one connection, driven '
+    'side by side, each with its own ATT_MTU) x operations as above plus groups of requests that are outstanding on 2..3 '
+    'bearers at the same time (never two on one bearer), the per-bearer API notify_subscriber/indicate_subscriber on the '
+    'Connection (fan-out over its bearers) or on one bearer, requests whose value callback takes 3..8 s, and 0..2 link '
+    'losses (HCI Disconnect by the peer or by the victim, after quiescence = clean, or with whatever is in flight = abrupt) '
+    'after which the client comes back on the same connection handle with new bearers; enumerated: (fixed, mixed) x who '
+    'disconnects x (abrupt, clean) x ATT_MTU before (23, 100, 517) x what is in flight (4 slow requests, slow '
+    'indication/notification, unconfirmed indication, nothing) x what is asked of the new connection; Exchange MTU on ONE '
+    'of the 2..3 bearers x a long read on every bearer (in turn / at once) or a long notification/indication to every '
+    'bearer (both APIs); one bearer that never confirms x three rounds of indications to all bearers. '
     'non-trivial = some window is not a plain successful single-attribute read: Error Response, '
     'multi-attribute response, PDU filled to ATT_MTU, malformed request, undefined/command/wrong-way opcode, '
     'or a server-initiated notification/indication; distinct by (database, MTUs, PDU bytes, operations).'
@@ -59,6 +69,20 @@ ASSUMPTIONS = [
     'enhanced bearers: client PDUs are cut to the server channel MTU and are never empty (one PDU = one SDU)',
     'after a count violation on a bearer the rest of that bearer history is not judged (state unknown)',
     'the process-wide UUID registry (bumble.core.UUID.UUIDS) is restored after every case',
+    'requests may be outstanding on different bearers of one connection at the same time (each bearer has its own '
+    'sequential transaction); if a generated or shrunk sequence would put a second request on a bearer that still has '
+    'one outstanding, the driver first waits for quiescence',
+    'mixed topology: ATT_MTU is tracked per bearer from the wire (Exchange MTU PDUs on the fixed bearer, the L2CAP MTU '
+    'fields for enhanced bearers); an exchange on one bearer does not change what is allowed on another',
+    'notify_subscriber/indicate_subscriber(Connection) may reach each bearer of that connection at most once per call, '
+    'notify_subscriber/indicate_subscriber(one bearer) that bearer at most once (counted per window like the other calls)',
+    'link loss: a request that was outstanding when the link went down is owed no answer (window marked cut); the new '
+    'connection has new bearers: the fixed one starts at ATT_MTU 23, the enhanced ones at their channel MTUs, nothing is '
+    'subscribed, no indication is outstanding; every PDU the peer receives on the new connection is judged against these '
+    'new bearers by the same clauses (size, one answer per request of THIS connection, nothing unsolicited). Violations '
+    'seen on a connection whose predecessor went down with an operation in flight carry the prefix after_link_loss/',
+    'a confirmation that falls due while the link is down is not sent; one that falls due after the client is back is '
+    'sent on the new connection (a confirmation without indication: nothing is expected in return)',
 ]
 SHRINK_KEYS = ('ops', 'services')
 
@@ -256,6 +280,7 @@ def make_layout(device, info: dict) -> dict:
             'char': isinstance(a, Characteristic),
             'sub': isinstance(a, Characteristic) and bool(int(a.properties) & 0x30),
             'cccd': a.type.to_pdu_bytes() == u16(0x2902),
+            'slow': spec is not None and str(spec.get('kind', '')).endswith('_async') and float(spec.get('delay') or 0) >= 1,
         })
     return {
         'attrs': attrs,
@@ -266,6 +291,7 @@ def make_layout(device, info: dict) -> dict:
         'sub': [a for a in attrs if a['sub']] or [a for a in attrs if a['char']] or attrs,
         'long': [a for a in attrs if a['vlen'] > 22] or attrs,
         'tv': [a for a in attrs if a['static'] is not None and len(a['type']) == 2] or attrs,
+        'slow': [a for a in attrs if a['slow']] or [a for a in attrs if a['val']] or attrs,
     }
 
 
@@ -283,7 +309,7 @@ def pick(sel, L):
         return None, 0xFFFF
     if mode == 'raw':
         return L['by_h'].get(k), k
-    pool = {'any': L['attrs'], 'val': L['val'], 'cccd': L['cccd'], 'sub': L['sub'], 'long': L['long']}[mode]
+    pool = {'any': L['attrs'], 'val': L['val'], 'cccd': L['cccd'], 'sub': L['sub'], 'long': L['long'], 'slow': L['slow']}[mode]
     a = pool[k % len(pool)]
     return a, a['h']
 
@@ -307,6 +333,9 @@ def render(t: dict, L: dict) -> bytes:
             out += u16(max(0, min(0xFFFF, base + int(part[1]))))
         elif kind == 'uuidof':
             out += L['attrs'][int(part[1]) % len(L['attrs'])]['type']
+        elif kind == 'typeof':  # type of the attribute a handle selector picks
+            a, _h = pick(part[1], L)
+            out += a['type'] if a else u16(0x2800)
         elif kind == 'valof':
             a = L['attrs'][int(part[1]) % len(L['attrs'])]
             out += a['static'] or b''
@@ -752,6 +781,221 @@ def sweep_case(op: int):
 
 
 # ---------------------------------------------------------------------------
+# histories: several bearers of different ATT_MTU at once (the fixed bearer next to enhanced ones), requests
+# outstanding on several bearers at the same time, the per-bearer notify/indicate API, and connections that go
+# down and come back (the connection handle is used again, the bearers are new)
+# ---------------------------------------------------------------------------
+HIST_DB = {'services': [{'uuid': u16(0xABCD), 'primary': True, 'inc': [], 'chars': [
+    _ch(u16(0x1234), 0x3A, 0x03, 'static', 60),                  # long value, notify + indicate
+    _ch(u16(0x1235), 0x3A, 0x03, 'dyn_async', 40, delay=3),      # slow to read and to write
+    _ch(u16(0x1235), 0x22, 0x03, 'static', 3),
+    _ch(u16(0x2A19), 0x1A, 0x03, 'dyn_async', 200, delay=8),
+    _ch(U128_B, 0x0A, 0x03, 'err_async', 10, err=0x05, werr=0x03, delay=3),
+    _ch(U128_C, 0x3A, 0x03, 'static', 300),
+]}]}
+FULL_RANGE = ('lit', u16(1) + u16(0xFFFF))
+
+
+def slow_template(kind: str, k: int) -> dict:
+    """A request whose handler waits (virtual seconds) for a value callback before it can answer."""
+    h = ('h', ('slow', k))
+    if kind == 'read':
+        return {'op': 0x0A, 'parts': [h]}
+    if kind == 'blob':
+        return {'op': 0x0C, 'parts': [h, ('lit', u16(0))]}
+    if kind == 'write':
+        return {'op': 0x12, 'parts': [h, ('lit', pattern(5))]}
+    if kind == 'read_by_type':
+        return {'op': 0x08, 'parts': [FULL_RANGE, ('typeof', ('slow', k))]}
+    if kind == 'read_multiple':
+        return {'op': 0x0E, 'parts': [('hset', [('slow', k), ('long', 0)])]}
+    return {'op': 0x20, 'parts': [('hset', [('long', 0), ('slow', k)])]}
+
+
+SLOW_KINDS = ('read', 'blob', 'write', 'read_by_type', 'read_multiple', 'read_multiple_variable')
+
+
+def history_ops(B: int, reconnects: int):
+    """Operation sequences over B bearers of one connection with `reconnects` link losses in between."""
+    o = op_strategy(B)
+    classes = [att.ATT_PDU.pdu_classes[k] for k in sorted(att.ATT_PDU.pdu_classes)]
+    request_t = st.one_of(*[class_template(c) for c in classes if int(c.op_code) in REQ_RSP])
+    slow_t = st.tuples(st.sampled_from(SLOW_KINDS), st.integers(0, 3)).map(lambda d: slow_template(*d))
+    long_read_t = st.integers(0, 7).map(lambda k: {'op': 0x0A, 'parts': [('h', ('long', k))]})
+    any_t = weighted((3, request_t), (2, slow_t), (2, long_read_t))
+    bearer = st.integers(0, B - 1)
+    slow = st.tuples(st.just('pdu'), slow_t, st.sampled_from(['par', 'par', 'p1', 'tick', 'wait']), bearer)
+    target = st.tuples(st.sampled_from(['sub', 'sub', 'sub', 'val', 'slow']), st.integers(0, 7))
+    length = st.one_of(st.none(), LENS, LENS)
+    whom = weighted((1, st.just('conn')), (1, bearer))
+    api = st.tuples(st.sampled_from(['notify1', 'notify1', 'indicate1']), target, length, st.sampled_from([False, False, False, True]),
+                    st.sampled_from(['now', 'tick', 'wait', 'wait', 'p1']), whom)
+    # requests outstanding on 2..B bearers at once (never two on one bearer), commands in between
+    command = st.tuples(st.just('pdu'), st.one_of(class_template(att.ATT_Write_Command), st.just(b'\x1e')), st.just('now'), bearer)
+
+    def par_build(d):
+        order, templates, cmds = d
+        out = [('pdu', t, 'par', b) for b, t in zip(order, templates)]
+        out[1:1] = cmds
+        return out + [('settle',)]
+
+    par = st.tuples(st.permutations(list(range(B))), st.lists(any_t, min_size=2, max_size=max(2, B)),
+                    st.lists(command, max_size=1)).map(par_build)
+    single = weighted((3, o['request']), (2, slow), (2, o['reads']), (2, o['notify']), (2, o['indicate']), (3, api),
+                      (1, o['confirm']), (1, o['mtu']), (1, o['sub']))
+    chunk = weighted((4, single.map(lambda x: [x])), (3 if B > 1 else 0, par))
+    phase = st.lists(chunk, min_size=1, max_size=3).map(lambda ch: [x for c in ch for x in c])
+    subs = st.lists(
+        st.tuples(st.integers(0, 5), st.sampled_from([b'\x01\x00', b'\x02\x00', b'\x03\x00', b'\x03\x00']), bearer),
+        min_size=0, max_size=B + 1,
+    ).map(lambda lst: [('pdu', {'op': 0x12, 'parts': [('h', ('cccd', k)), ('lit', bits)]}, 'wait', b) for k, bits, b in lst])
+    mtu = st.sampled_from([None, 23, 64, 100, 185, 517, 517]).map(
+        lambda v: [] if v is None else [('pdu', {'op': 0x02, 'parts': [('lit', u16(v))]}, 'wait', 0)])
+    rec = st.tuples(st.just('reconnect'), st.sampled_from(['abrupt', 'abrupt', 'clean']),
+                    st.sampled_from(['peer', 'peer', 'victim'])).map(lambda r: [r])
+    parts = [mtu, subs, phase]
+    for _ in range(reconnects):
+        parts += [rec, mtu, subs, phase]
+    return st.tuples(*parts).map(lambda d: [x for part in d for x in part] + [('settle',), ('pdu', LIVENESS, 'wait', 0)])
+
+
+def history_case():
+    l2 = st.one_of(st.sampled_from([23, 27, 64, 100, 247, 512]), st.integers(23, 517))
+    shape = st.sampled_from([('fixed', 0, 1), ('fixed', 0, 1), ('fixed', 0, 2), ('mixed', 1, 0), ('mixed', 2, 0), ('mixed', 1, 1),
+                             ('mixed', 2, 1), ('mixed', 1, 2)])
+    db = weighted((2, st.just(HIST_DB)), (1, db_spec()))
+
+    def build(sh):
+        topo, nb, reconnects = sh
+        d = {'bearer': st.just(topo), 'db': db, 'server_mtu': MTUS,
+             'sec': st.sampled_from([[0, 0], [0, 0], [1, 1]]), 'confirm': CONFIRMS, 'delays': DELAYS,
+             'ops': history_ops(nb + 1, reconnects)}
+        if topo == 'mixed':
+            d['nb'] = st.just(nb)
+            d['l2mtu'] = st.tuples(l2, l2).map(list)
+        return st.fixed_dictionaries(d)
+
+    return shape.flatmap(build)
+
+
+def _sub(k, bits, b):
+    return ('pdu', {'op': 0x12, 'parts': [('h', ('cccd', k)), ('lit', bits)]}, 'wait', b)
+
+
+def _mtu(v, b=0):
+    return ('pdu', {'op': 0x02, 'parts': [('lit', u16(v))]}, 'wait', b)
+
+
+# positions in HIST_DB behind the default GAP/GATT services: 'sub' 0 and 'cccd' 0 are Service Changed
+H_LONG, H_SLOW = 1, 2
+IN_FLIGHT = ('read', 'read_by_type', 'write', 'read_multiple_variable', 'indicate_slow', 'notify_slow', 'indication_unconfirmed', 'none')
+AFTER = ('notify', 'indicate', 'read_long', 'notify1', 'resubscribe_notify')
+
+
+def reconnect_build(topo, who, mode, mtu, inflight, after, nb=1):
+    """One case of the enumerated `reconnect` family: the client raises ATT_MTU and subscribes; an operation is in flight
+    (abrupt) or has completed (clean) when the link goes down; the client comes back on the same connection handle and the
+    server is asked to send / to answer on the new bearers."""
+    B = nb + 1 if topo == 'mixed' else 1
+    hold = 'p1' if mode == 'abrupt' else 'wait'
+    ops = [_mtu(mtu)] + [_sub(k, b'\x03\x00', b) for b in range(B) for k in (H_LONG, H_SLOW)]
+    if inflight in ('read', 'read_by_type', 'write', 'read_multiple_variable'):
+        ops.append(('pdu', slow_template(inflight, 0), 'par' if mode == 'abrupt' else 'wait', 0))
+        if mode == 'abrupt':
+            ops.append(('pdu', b'\x1e', hold, 0))  # (a command: lets one virtual second pass before the link goes down)
+    elif inflight == 'indicate_slow':
+        ops.append(('indicate', ('sub', H_SLOW), None, False, hold))
+    elif inflight == 'notify_slow':
+        ops.append(('notify', ('sub', H_SLOW), None, False, hold))
+    elif inflight == 'indication_unconfirmed':
+        ops.append(('indicate', ('sub', H_LONG), 200, False, hold))
+    ops.append(('reconnect', mode, who))
+    if after == 'notify':
+        ops.append(('notify', ('sub', H_LONG), 200, False, 'wait'))
+    elif after == 'indicate':
+        ops.append(('indicate', ('sub', H_LONG), None, False, 'wait'))
+    elif after == 'read_long':
+        ops.append(('pdu', {'op': 0x0A, 'parts': [('h', ('sub', H_LONG))]}, 'wait', 0))
+    elif after == 'notify1':
+        ops.append(('notify1', ('sub', H_LONG), 200, False, 'wait', 'conn'))
+    else:
+        ops += [_sub(H_LONG, b'\x01\x00', 0), ('notify', ('sub', H_LONG), 200, False, 'wait')]
+    ops += [('settle',), ('pdu', LIVENESS, 'wait', 0)]
+    case = {'bearer': topo, 'db': HIST_DB, 'server_mtu': 517, 'sec': [0, 0],
+            'confirm': [None] if inflight == 'indication_unconfirmed' else [0], 'delays': [], 'ops': ops}
+    if topo == 'mixed':
+        case.update(nb=nb, l2mtu=[100, 64])
+    return case
+
+
+def isolation_build(nb, l2mtu, src, big, probe):
+    """One case of the enumerated `isolation` family: fixed bearer + nb enhanced bearers, all subscribed; ATT_MTU is raised
+    on ONE bearer (`src`) by an Exchange MTU Request; then every bearer is asked for a long value / the server is told to
+    send one to every bearer: each PDU has to respect the ATT_MTU of the bearer it is sent on."""
+    B = nb + 1
+    ops = [_sub(H_LONG, b'\x03\x00', b) for b in range(B)] + [_mtu(big, src)]
+    read = {'op': 0x0A, 'parts': [('h', ('sub', H_LONG))]}
+    if probe == 'read':
+        ops += [('pdu', read, 'wait', b) for b in range(B)]
+    elif probe == 'read_at_once':
+        ops += [('pdu', read, 'par', b) for b in range(B)] + [('settle',)]
+    elif probe == 'blob_at_once':
+        ops += [('pdu', {'op': 0x0C, 'parts': [('h', ('sub', 5)), ('lit', u16(1))]}, 'par', b) for b in range(B)] + [('settle',)]
+    elif probe in ('notify', 'indicate'):
+        ops.append((probe, ('sub', H_LONG), 300 if probe == 'notify' else None, False, 'wait'))
+    elif probe == 'notify1_one':  # the per-bearer API on one bearer (not the one whose ATT_MTU was raised)
+        ops.append(('notify1', ('sub', H_LONG), 300, False, 'wait', (src + 1) % B))
+    else:  # the per-bearer API on the Connection: every bearer of the connection in turn
+        ops.append((probe, ('sub', H_LONG), 300, False, 'wait', 'conn'))
+    ops += [('settle',), ('pdu', LIVENESS, 'wait', 0)]
+    return {'bearer': 'mixed', 'nb': nb, 'l2mtu': list(l2mtu), 'db': HIST_DB, 'server_mtu': big, 'sec': [0, 0],
+            'confirm': [0], 'delays': [], 'ops': ops}
+
+
+def held_indication_build(nb, l2mtu, silent, api):
+    """`isolation`, indication clause: every bearer is subscribed; the client never confirms on bearer `silent` and
+    confirms at once on the others; three rounds of indications one second apart. The silent bearer must not see a
+    second indication while the others go on."""
+    B = nb + 1
+    ops = [_sub(H_LONG, b'\x02\x00', b) for b in range(B)]
+    for g in ('p1', 'p1', 'wait'):
+        ops.append(('indicate', ('sub', H_LONG), 10, False, g) if api == 'all' else
+                   ('indicate1', ('sub', H_LONG), 10, False, g, 'conn' if api == 'conn' else (silent + 1) % B))
+    ops += [('settle',), ('pdu', LIVENESS, 'wait', 0)]
+    return {'bearer': 'mixed', 'nb': nb, 'l2mtu': list(l2mtu), 'db': HIST_DB, 'server_mtu': 185, 'sec': [0, 0],
+            'confirm': [0], 'confirm_b': [[None] if b == silent else [0] for b in range(B)], 'delays': [], 'ops': ops}
+
+
+def enumerated_histories(ctx):
+    """Plain loops. Thorough: everything, in every shard (the labels have floors). Quick: one third of the reconnect and
+    isolation cases, rotated by the seed, and all held-indication cases."""
+    cases = []
+    for topo in ('fixed', 'mixed'):
+        for who in ('peer', 'victim'):
+            for mode in ('abrupt', 'clean'):
+                for mtu in (23, 100, 517):
+                    for j, inflight in enumerate(IN_FLIGHT):
+                        after = AFTER[(len(cases) + j) % len(AFTER)]
+                        cases.append(reconnect_build(topo, who, mode, mtu, inflight, after, nb=1 + len(cases) % 2))
+    for nb in (1, 2):
+        for l2mtu in ((64, 100), (247, 64)):
+            for src in range(nb + 1):
+                for big in (517, 185):
+                    for probe in ('read', 'read_at_once', 'blob_at_once', 'notify', 'indicate', 'notify1', 'indicate1', 'notify1_one'):
+                        cases.append(isolation_build(nb, l2mtu, src, big, probe))
+    rot = ctx.subseed('histories') % 3
+    for i, c in enumerate(cases):
+        if ctx.quick and (i + rot) % 3:  # (the innermost axes have 8 values each: every value keeps a third of its cases)
+            continue
+        yield c
+    for nb in (1, 2):  # (small: always complete)
+        for l2mtu in ((64, 100), (247, 64)):
+            for silent in range(nb + 1):
+                for api in ('all', 'conn', 'one'):
+                    yield held_indication_build(nb, l2mtu, silent, api)
+
+
+# ---------------------------------------------------------------------------
 # one case: drive the real stack, record the bearer history
 # ---------------------------------------------------------------------------
 def materialize(op, L, limits):
@@ -766,17 +1010,24 @@ def materialize(op, L, limits):
             if pdu[0] == 0x02 and len(pdu) >= 3 and int.from_bytes(pdu[1:3], 'little') > lim['mtu']:
                 pdu = pdu[:1] + u16(lim['mtu']) + pdu[3:]
         return ['pdu', pdu, gap, b]
-    if kind in ('notify', 'indicate'):
+    if kind in ('notify', 'indicate', 'notify1', 'indicate1'):
         target = op[1]
         handle = pick(target, L)[1] if isinstance(target, (tuple, list)) else int(target)
-        return [kind, handle, op[2], bool(op[3]), op[4]]
+        out = [kind, handle, op[2], bool(op[3]), op[4]]
+        if kind.endswith('1'):  # the per-bearer API: the Connection itself or one bearer
+            out.append('conn' if op[5] == 'conn' else int(op[5]) % len(limits))
+        return out
     if kind == 'settle':
         return ['settle']
+    if kind == 'reconnect':
+        return ['reconnect', str(op[1]), str(op[2])]
     raise HarnessError(f'unknown operation {op!r}')
 
 
 async def _drive(loop, case, S):
-    eatt = case['bearer'] == 'eatt'
+    topo = case['bearer']  # 'fixed': raw peer on CID 4; 'eatt': enhanced bearers only; 'mixed': CID 4 + enhanced bearers
+    eatt = topo in ('eatt', 'mixed')
+    mixed = topo == 'mixed'
     delays = list(case.get('delays') or []) or None
     w = world.World(2 if eatt else 1, delays=delays)
     dev = w[0].device
@@ -784,8 +1035,14 @@ async def _drive(loop, case, S):
     dev.gatt_server.max_mtu = int(case['server_mtu'])
     log = S['log'] = []
     S['timers'] = 0
+    S['epoch'] = 0
+    S['api'] = set()
+    epochs = S['epochs'] = []
     confirm = itertools.cycle(list(case.get('confirm') or [0]))
+    # optional: one confirmation policy per bearer (each cycled on its own) instead of the common one
+    confirm_b = [itertools.cycle(list(p)) if p else None for p in (case.get('confirm_b') or [])]
     senders: list = []
+    link = {'up': False, 'conn': None, 'conn_c': None, 'chans': []}
 
     def tx(b, pdu):
         log.append((loop.time(), 'tx', b, bytes(pdu)))
@@ -793,13 +1050,15 @@ async def _drive(loop, case, S):
 
     def fire(b):
         S['timers'] -= 1
-        tx(b, b'\x1e')
+        if link['up']:  # (a confirmation that was due while the link is down is not sent)
+            tx(b, b'\x1e')
 
     def rx(b, pdu):
         pdu = bytes(pdu)
         log.append((loop.time(), 'rx', b, pdu))
         if pdu[:1] == b'\x1d':
-            d = next(confirm)
+            own = confirm_b[b] if b < len(confirm_b) else None
+            d = next(own if own is not None else confirm)
             if d is None:
                 return
             n = 2 if d == 'dbl' else 1
@@ -816,54 +1075,126 @@ async def _drive(loop, case, S):
 
         def on_packet(self, packet):
             if packet[0] == 0x02 and len(packet) >= 10 and (int.from_bytes(packet[1:3], 'little') >> 12) & 3 != 1:
-                vlog.append((loop.time(), self.direction, int.from_bytes(packet[7:9], 'little'), bytes(packet[9:12])))
+                vlog.append((loop.time(), self.direction, int.from_bytes(packet[7:9], 'little'), bytes(packet[9:12]),
+                             S['epoch']))
             self.inner.on_packet(packet)
 
     w[0].host.set_packet_sink(Rec(w[0].tap.to_controller, 'S'))
     w[0].tap.sinks[world.C2H] = Rec(w[0].host, 'A')
     await w.power_on()
+    peer = None
+    sig: dict = {}
     if not eatt:
         peer = world.RawPeer(w, 9)
         await peer.start()
-        conn = await peer.connect_to(dev)
         peer.host.on('l2cap_pdu', lambda _h, cid, p: cid == att.ATT_CID and rx(0, p))
-        senders.append(lambda pdu: peer.send(att.ATT_CID, pdu))
-        mtu0 = [23]
-        limits = [None]
-        S['cids'] = {'S': {att.ATT_CID: 0}, 'A': {att.ATT_CID: 0}}
     else:
-        sig = {}
         w[0].host.on('l2cap_pdu', lambda _h, cid, p: cid == 5 and p[:1] == b'\x17' and sig.setdefault('req', bytes(p)))
         w[1].host.on('l2cap_pdu', lambda _h, cid, p: cid == 5 and p[:1] == b'\x18' and sig.setdefault('rsp', bytes(p)))
+        if mixed:  # the fixed bearer of the same connection, driven with raw PDUs next to the enhanced ones
+            w[1].host.on('l2cap_pdu', lambda _h, cid, p: cid == att.ATT_CID and rx(0, p))
         dev.gatt_server.register_eatt(l2cap.LeCreditBasedChannelSpec(psm=att.EATT_PSM, mtu=int(case['l2mtu'][1])))
-        conn_c, conn = await w.connect_le(1, 0)
-        chans = await w[1].device.l2cap_channel_manager.create_enhanced_credit_based_channels(
-            conn_c, l2cap.LeCreditBasedChannelSpec(psm=att.EATT_PSM, mtu=int(case['l2mtu'][0])), int(case['nb'])
-        )
-        if 'req' not in sig or 'rsp' not in sig:
-            raise HarnessError('EATT channel set-up not seen on the wire')
-        client_l2 = int.from_bytes(sig['req'][6:8], 'little')
-        server_l2 = int.from_bytes(sig['rsp'][4:6], 'little')
-        mtu0, limits = [], []
-        S['cids'] = {'S': {ch.source_cid: b for b, ch in enumerate(chans)},
-                     'A': {ch.destination_cid: b for b, ch in enumerate(chans)}}
-        for b, ch in enumerate(chans):
-            ch.sink = lambda pdu, b=b: rx(b, pdu)
-            senders.append(ch.write)
-            mtu0.append(min(client_l2, server_l2))
-            limits.append({'sdu': server_l2, 'mtu': min(client_l2, server_l2)})
+
+    async def connect():
+        """(Re-)establishes the link and its bearers; one epoch record per connection."""
+        del senders[:]
+        if not eatt:
+            conn = await peer.connect_to(dev)
+            conn_c, chans = None, []
+            senders.append(lambda pdu: peer.send(att.ATT_CID, pdu))
+            mtu0, limits, enh = [23], [None], [False]
+            cids = {'S': {att.ATT_CID: 0}, 'A': {att.ATT_CID: 0}}
+            client_l2 = None
+        else:
+            sig.clear()
+            conn_c, conn = await w.connect_le(1, 0)
+            if mixed:  # the client device must not answer on CID 4 by itself (its GATT client would confirm indications)
+                conn_c.gatt_client = None
+            chans = await w[1].device.l2cap_channel_manager.create_enhanced_credit_based_channels(
+                conn_c, l2cap.LeCreditBasedChannelSpec(psm=att.EATT_PSM, mtu=int(case['l2mtu'][0])), int(case['nb'])
+            )
+            if 'req' not in sig or 'rsp' not in sig:
+                raise HarnessError('EATT channel set-up not seen on the wire')
+            client_l2 = int.from_bytes(sig['req'][6:8], 'little')
+            server_l2 = int.from_bytes(sig['rsp'][4:6], 'little')
+            mtu0, limits, enh = [], [], []
+            cids = {'S': {}, 'A': {}}
+            if mixed:
+                senders.append(lambda pdu, h=conn_c.handle: w[1].device.send_l2cap_pdu(h, att.ATT_CID, pdu))
+                mtu0.append(23)
+                limits.append(None)
+                enh.append(False)
+                cids['S'][att.ATT_CID] = cids['A'][att.ATT_CID] = 0
+            for ch in chans:
+                b = len(senders)
+                ch.sink = lambda pdu, b=b: rx(b, pdu)
+                senders.append(ch.write)
+                cids['S'][ch.source_cid] = b
+                cids['A'][ch.destination_cid] = b
+                mtu0.append(min(client_l2, server_l2))
+                limits.append({'sdu': server_l2, 'mtu': min(client_l2, server_l2)})
+                enh.append(True)
+        conn.encryption = 1 if case['sec'][0] else 0
+        conn.authenticated = bool(case['sec'][1])
+        link.update(up=True, conn=conn, conn_c=conn_c, chans=chans)
+        epochs.append({'mtu0': mtu0, 'cids': cids, 't': loop.time()})
         S['client_l2'] = client_l2
-    conn.encryption = 1 if case['sec'][0] else 0
-    conn.authenticated = bool(case['sec'][1])
-    S['mtu0'] = mtu0
+        S['enh'] = enh
+        return limits
+
+    async def disconnect(who):
+        """The link goes down (HCI Disconnect by the peer or by the victim); returns when both sides have seen it."""
+        conn, conn_c = link['conn'], link['conn_c']
+        link['up'] = False
+        if not eatt:
+            gone = loop.create_future()
+            peer.host.once('disconnection', lambda *_a: gone.done() or gone.set_result(None))
+            if who == 'victim':
+                await conn.disconnect()
+            else:
+                await peer.host.send_async_command(hci.HCI_Disconnect_Command(connection_handle=peer.handle, reason=0x13))
+            await gone
+        else:
+            await (conn if who == 'victim' else conn_c).disconnect()
+        for _ in range(500):
+            if dev.connections.get(conn.handle) is not conn and (
+                    conn_c is None or w[1].device.connections.get(conn_c.handle) is not conn_c):
+                return
+            await asyncio.sleep(0.01)
+        raise HarnessError('C10 driver: the link did not go down')
+
+    def victim_bearer(target):
+        """The victim-side object of a bearer: the Connection (fixed bearer) or its end of an enhanced channel."""
+        if target == 'conn' or not S['enh'][target]:
+            return link['conn']
+        chan = link['chans'][target - (1 if mixed else 0)]
+        mine = dev.l2cap_channel_manager.le_coc_channels.get(link['conn'].handle, {})
+        return next((c for c in mine.values() if c.source_cid == chan.destination_cid), None)
+
+    limits = await connect()
+    S['mtu0'] = list(epochs[0]['mtu0'])
     L = S['layout'] = make_layout(dev, info)
     ops = S['ops'] = [materialize(op, L, limits) for op in case['ops']]
     windows = S['windows'] = []
     tasks: list = []
     cur = None
 
-    async def close():
+    def window():
+        return {'lo': len(log), 'ops': [], 'ntf': 0, 'ind': 0, 'err_lo': len(loop.errors), 't0': loop.time(),
+                'epoch': S['epoch'], 'reqb': set(), 'cut': False}
+
+    def finish(quiet, cut=False):
         nonlocal cur
+        cur['hi'] = len(log)
+        cur['err_hi'] = len(loop.errors)
+        cur['t1'] = loop.time()
+        cur['quiet'] = quiet
+        cur['cut'] = cut
+        cur['in_flight'] = cut and not all(t.done() for t in tasks)  # (requests: decided from the history)
+        windows.append(cur)
+        cur = None
+
+    async def close():
         quiet = False
         for _ in range(MAX_ROUNDS):
             n = len(log)
@@ -871,12 +1202,7 @@ async def _drive(loop, case, S):
             if len(log) == n and S['timers'] == 0 and all(t.done() for t in tasks):
                 quiet = True
                 break
-        cur['hi'] = len(log)
-        cur['err_hi'] = len(loop.errors)
-        cur['t1'] = loop.time()
-        cur['quiet'] = quiet
-        windows.append(cur)
-        cur = None
+        finish(quiet)
 
     async def gap(g):
         if g == 'tick':
@@ -888,30 +1214,58 @@ async def _drive(loop, case, S):
 
     for i, op in enumerate(ops):
         if cur is None:
-            cur = {'lo': len(log), 'ops': [], 'ntf': 0, 'ind': 0, 'err_lo': len(loop.errors), 't0': loop.time()}
-        cur['ops'].append(i)
+            cur = window()
         if op[0] == 'pdu':
             _k, pdu, g, b = op
+            is_request = bool(pdu) and klass(pdu[0]) == 'request'
+            if is_request and b in cur['reqb']:  # one request at a time per bearer (see ASSUMPTIONS)
+                await close()
+                cur = window()
+            cur['ops'].append(i)
             tx(b, pdu)
-            if g == 'wait' or (pdu and klass(pdu[0]) == 'request'):
+            if is_request:
+                cur['reqb'].add(b)
+            # 'par': the request stays outstanding while the next operations (on other bearers) are issued
+            if g == 'wait' or (is_request and g != 'par'):
                 await close()
             else:
                 await gap(g)
-        elif op[0] in ('notify', 'indicate'):
-            _k, handle, n, force, g = op
+        elif op[0] in ('notify', 'indicate', 'notify1', 'indicate1'):
+            _k, handle, n, force, g = op[:5]
+            cur['ops'].append(i)
             attribute = dev.gatt_server.get_attribute(handle)
-            if attribute is not None:
-                cur['ntf' if op[0] == 'notify' else 'ind'] += 1
+            one = op[0].endswith('1')
+            bearer = victim_bearer(op[5]) if one else None
+            if attribute is not None and not (one and bearer is None):
+                cur['ntf' if op[0].startswith('notify') else 'ind'] += 1
                 value = None if n is None else pattern(int(n))
-                fn = dev.gatt_server.notify_subscribers if op[0] == 'notify' else dev.gatt_server.indicate_subscribers
-                task = loop.create_task(fn(attribute, value, force))
+                server = dev.gatt_server
+                if one:
+                    S['api'].add(f'api:{op[0][:-1]}_subscriber/{"connection" if op[5] == "conn" else "one_bearer"}')
+                    fn = server.notify_subscriber if op[0] == 'notify1' else server.indicate_subscriber
+                    task = loop.create_task(fn(bearer, attribute, value, force))
+                else:
+                    fn = server.notify_subscribers if op[0] == 'notify' else server.indicate_subscribers
+                    task = loop.create_task(fn(attribute, value, force))
                 task.add_done_callback(lambda t: t.cancelled() or t.exception())
                 tasks.append(task)
             if g == 'wait':
                 await close()
             else:
                 await gap(g)
+        elif op[0] == 'reconnect':
+            _k, mode, who = op
+            if mode == 'clean' and cur['ops']:  # 'abrupt': the link drops with whatever is in flight
+                await close()
+                cur = window()
+            cur['ops'].append(i)
+            await disconnect(who)
+            finish(True, cut=True)
+            S['epoch'] += 1
+            cur = window()  # what arrives while the bearers are set up again belongs to the new connection
+            await connect()
         else:
+            cur['ops'].append(i)
             await close()
     if cur is not None:
         await close()
@@ -1001,18 +1355,23 @@ def tags_of(pdu: bytes, L: dict, bound: int) -> set:
 def analyse(ctx, case, S, loop) -> None:
     log, windows, L, ops = S['log'], S['windows'], S['layout'], S['ops']
     nb = len(S['mtu0'])
-    eatt = case['bearer'] == 'eatt'
+    eatt = case['bearer'] in ('eatt', 'mixed')
+    enh, epochs = S['enh'], S['epochs']  # enh[b]: bearer b is an enhanced bearer (else the fixed one)
     concrete = {k: case[k] for k in ('bearer', 'db', 'server_mtu', 'sec', 'confirm', 'delays')}
     if eatt:
         concrete['nb'] = case['nb']
         concrete['l2mtu'] = case['l2mtu']
+    if case.get('confirm_b'):
+        concrete['confirm_b'] = case['confirm_b']
     bound = list(S['mtu0'])
     exchanged = [False] * nb
     pending_c = [None] * nb
     outstanding: list = [None] * nb
-    labels = {f'bearer:{case["bearer"]}'}
-    if eatt and nb > 1:
+    labels = {f'bearer:{case["bearer"]}'} | set(S['api'])
+    if case['bearer'] == 'eatt' and nb > 1:
         labels.add('bearer:eatt_two_channels')
+    if case['bearer'] == 'mixed' and nb > 2:
+        labels.add('bearer:mixed_three_bearers')
     nontrivial = False
 
     def last_error(wnd):  # diagnostic text only
@@ -1027,22 +1386,56 @@ def analyse(ctx, case, S, loop) -> None:
 
     dead = [False] * nb  # a count violation happened on this bearer: what follows there is not judged
 
-    def fail(sig, what, upto):
-        ctx.fail(sig, what, dict(concrete, kind='seq', ops=ops[: upto + 1]))
+    # set while judging a connection whose predecessor went down with an operation still in flight (one history class,
+    # one prefix: what the server does with the leftovers of a closed connection)
+    leftover = ['']
+    prefix_of = {0: ''}
 
+    def fail(sig, what, upto):
+        ctx.fail(leftover[0] + sig, what, dict(concrete, kind='seq', ops=ops[: upto + 1]))
+
+    epoch = 0
+    subscribed = False
+    cccds = {a['h'] for a in L['attrs'] if a['cccd']}
     for wnd in windows:
-        last_op = wnd['ops'][-1]
+        last_op = wnd['ops'][-1] if wnd['ops'] else len(ops) - 1
         if not wnd['quiet']:
             labels.add('inconclusive:not_quiescent')
             break
+        if wnd['epoch'] != epoch:
+            # a new connection: new bearers. The fixed bearer starts again at the default ATT_MTU, the enhanced ones
+            # at their channel MTUs; nothing is subscribed, nothing is outstanding.
+            epoch = wnd['epoch']
+            kind = ops[windows[windows.index(wnd) - 1]['ops'][-1]]
+            labels.add(f'reconnect:{kind[1]}')
+            labels.add(f'reconnect:by_{kind[2]}')
+            if any(bound[b] > 23 for b in range(nb) if not enh[b]):
+                labels.add('reconnect:mtu_was_raised')
+            if subscribed:
+                labels.add('reconnect:subscribed_before')
+            if epoch >= 2:
+                labels.add('reconnect:twice')
+            before = windows[windows.index(wnd) - 1]
+            leftover[0] = prefix_of[epoch] = 'after_link_loss/' if before['in_flight'] else ''
+            if before['in_flight']:
+                labels.add('reconnect:operation_in_flight')
+            bound = list(epochs[epoch]['mtu0'])
+            exchanged = [False] * nb
+            pending_c = [None] * nb
+            dead = [False] * nb
+            subscribed = False
+        if epoch and (wnd['ntf'] or wnd['ind']):
+            labels.add('reconnect:server_send_after')
         txs = [[] for _ in range(nb)]
         rxs = [[] for _ in range(nb)]
         for t, d, b, pdu in log[wnd['lo']: wnd['hi']]:
             if d == 'tx':
                 txs[b].append(pdu)
                 labels |= tags_of(pdu, L, bound[b])
-                if pdu[:1] == b'\x02' and len(pdu) >= 3 and not eatt:
+                if pdu[:1] == b'\x02' and len(pdu) >= 3 and not enh[b]:
                     pending_c[b] = int.from_bytes(pdu[1:3], 'little')
+                if pdu[:1] == b'\x12' and len(pdu) == 5 and pdu[3] & 3 and int.from_bytes(pdu[1:3], 'little') in cccds:
+                    subscribed = True
                 continue
             rxs[b].append(pdu)
             # ---- size clause
@@ -1060,6 +1453,13 @@ def analyse(ctx, case, S, loop) -> None:
             elif pdu[0] == 0x1B:
                 labels.add('notification_sent')
                 nontrivial = True
+            if len(set(bound)) > 1:
+                if pdu[0] in (0x1B, 0x1D):
+                    labels.add('mixed:server_send_with_different_mtus')
+                if len(pdu) == bound[b] and bound[b] < max(bound):
+                    labels.add('mixed:pdu_fills_the_smaller_mtu')
+                if len(pdu) > min(bound):
+                    labels.add('mixed:pdu_longer_than_another_bearers_mtu')
             # ---- MTU tracking from the wire
             if pdu[0] == 0x03 and len(pdu) == 3 and pending_c[b] is not None:
                 new = max(23, min(pending_c[b], int.from_bytes(pdu[1:3], 'little')))
@@ -1069,6 +1469,15 @@ def analyse(ctx, case, S, loop) -> None:
                 exchanged[b] = True
                 pending_c[b] = None
         # ---- count clause
+        asked = [b for b in range(nb) if any(p and klass(p[0]) == 'request' for p in txs[b])]
+        if len(asked) >= 2:
+            labels.add('par:requests_outstanding_on_two_bearers')
+            nontrivial = True
+        if len(asked) >= 3:
+            labels.add('par:requests_outstanding_on_three_bearers')
+        pushed = [b for b in range(nb) if any(p[0] in (0x1B, 0x1D) for p in rxs[b])]
+        if len(pushed) >= 2:
+            labels.add('mixed:server_send_on_two_bearers')
         for b in range(nb):
             if dead[b]:
                 labels.add('not_judged:after_count_violation')
@@ -1085,7 +1494,11 @@ def analyse(ctx, case, S, loop) -> None:
             for q in [p for p in sent if klass(p[0]) == 'request']:
                 want = REQ_RSP[q[0]]
                 match = [p for p in rest if p[0] == want or is_error_for(p, q[0])]
-                if not match:
+                if not match and wnd['cut']:
+                    labels.add('reconnect:request_in_flight')  # the link went down first: no answer is owed
+                    wnd['in_flight'] = True
+                    nontrivial = True
+                elif not match:
                     sig = 'no_response/malformed_request' if malformed(q) else f'no_response/{opname(q[0])}'
                     fail(sig, f'{opname(q[0])} {q[:12].hex()}{"..." if len(q) > 12 else ""} ({len(q)} bytes) got no response '
                               f'after quiescence{last_error(wnd)}', last_op)
@@ -1120,7 +1533,7 @@ def analyse(ctx, case, S, loop) -> None:
                         labels.add('undefined_opcode:error_response')
                 if k != 'request':
                     nontrivial = True
-            full = [p for p in rxs[b] if eatt and len(p) >= S['client_l2']]
+            full = [p for p in rxs[b] if enh[b] and len(p) >= S['client_l2']]
             if rest and full and rxs[b].index(full[0]) < len(rxs[b]) - 1:
                 # enhanced bearer: a PDU longer than the client's channel MTU is cut into several SDUs by L2CAP, the
                 # client then sees a full-sized SDU followed by the remaining bytes as "PDUs" of their own
@@ -1138,10 +1551,20 @@ def analyse(ctx, case, S, loop) -> None:
                      f'in this window{last_error(wnd)}', last_op)
                 dead[b] = True
     # ---- at most one indication awaiting confirmation, in the order the victim itself sent / was handed PDUs
-    skip = 2 if eatt else 0  # enhanced bearer: K-frame = SDU length + PDU (every ATT PDU fits one frame)
-    for t, d, cid, head in S['vlog']:
-        b = S['cids'][d].get(cid)
-        if b is None or len(head) <= skip:
+    epoch = 0
+    leftover[0] = ''
+    for t, d, cid, head, e in S['vlog']:
+        if e != epoch:  # the bearers of the previous connection are gone, and what they were waiting for with them
+            leftover[0] = prefix_of.get(e, '')
+            if any(o is not None and epochs[e]['t'] - o < IND_TIMEOUT for o in outstanding):
+                labels.add('reconnect:indication_unconfirmed')
+            outstanding = [None] * nb
+            epoch = e
+        b = epochs[e]['cids'][d].get(cid)
+        if b is None:
+            continue
+        skip = 2 if enh[b] else 0  # enhanced bearer: K-frame = SDU length + PDU (every ATT PDU fits one frame)
+        if len(head) <= skip:
             continue
         op = head[skip]
         if d == 'S' and op == 0x1D:
@@ -1197,6 +1620,13 @@ def run(ctx) -> None:
     ctx.hyp('indicate_overlap', lambda c: run_case(ctx, c), indicate_overlap_case(), max_examples=ctx.n(150, 8000))
     # 3. enhanced bearers
     ctx.hyp('eatt', lambda c: run_case(ctx, c), eatt_case(), max_examples=ctx.n(320, 24000))
+    # 4. histories: fixed + enhanced bearers of one connection at once, requests outstanding on several bearers, the
+    #    per-bearer notify/indicate API, connections that go down and come back
+    for c in enumerated_histories(ctx):
+        if ctx.out_of_time():
+            break
+        run_case(ctx, c)
+    ctx.hyp('history', lambda c: run_case(ctx, c), history_case(), max_examples=ctx.n(220, 16000))
     for label, n in (
         ('tx:request', 100), ('tx:command', 10), ('tx:confirmation', 10), ('tx:wrong_way', 10), ('tx:undefined', 50),
         ('malformed_request', 20), ('handle:zero', 10), ('handle:past_end', 10), ('handle:ffff', 10),
@@ -1212,6 +1642,16 @@ def run(ctx) -> None:
         ('rsp_fills_mtu:READ_BY_TYPE_RESPONSE', 2), ('rsp_fills_mtu:READ_BY_GROUP_TYPE_RESPONSE', 1),
         ('rsp_fills_mtu:FIND_INFORMATION_RESPONSE', 2), ('rsp_fills_mtu:READ_MULTIPLE_RESPONSE', 2),
         ('rsp_fills_mtu:READ_MULTIPLE_VARIABLE_RESPONSE', 2), ('rsp_nearly_fills_mtu:READ_BY_TYPE_RESPONSE', 5),
+        # histories
+        ('bearer:mixed', 40), ('bearer:mixed_three_bearers', 15), ('par:requests_outstanding_on_two_bearers', 15),
+        ('par:requests_outstanding_on_three_bearers', 3), ('mixed:server_send_on_two_bearers', 10),
+        ('mixed:server_send_with_different_mtus', 10), ('mixed:pdu_fills_the_smaller_mtu', 10),
+        ('mixed:pdu_longer_than_another_bearers_mtu', 10), ('api:notify_subscriber/connection', 10),
+        ('api:indicate_subscriber/connection', 5), ('api:notify_subscriber/one_bearer', 3),
+        ('api:indicate_subscriber/one_bearer', 3), ('reconnect:abrupt', 20), ('reconnect:clean', 15),
+        ('reconnect:by_peer', 20), ('reconnect:by_victim', 15), ('reconnect:twice', 3), ('reconnect:mtu_was_raised', 15),
+        ('reconnect:subscribed_before', 15), ('reconnect:request_in_flight', 8), ('reconnect:indication_unconfirmed', 3),
+        ('reconnect:server_send_after', 15),
     ):
         ctx.floor(label, n)
 
